@@ -109,3 +109,5 @@ pub open spec fn closure_operands_ok(vm: &Vm, f: FunRef) -> bool {
 }
 
 pub open spec fn is_kind(v: Value, k: ObjectKind) -> bool { v_is_obj(v) && o_kind(v_obj(v)) == k }
+
+pub open spec fn is_str_value(v: Value) -> bool { v_is_obj(v) && o_kind(v_obj(v)) == ObjectKind::String }
